@@ -147,13 +147,16 @@ class Gen5(P.Gen):
             return None
         n_ = r.choice(shared)
         nm = self.newname()
-        e = ("bin", "Add", ("col", "t", n_), ("lit", 1))
+        # variant "both": t.N and u.N are both used behind the split (the duplicate gets a generated name nothing defines);
+        # variant "one": only u.N is used there (the reference is emitted as the bare name N, which denotes t.N in the CTE)
+        both = r.random() < 0.5
+        e = ("bin", "Add", ("col", "t", n_ if both else "c"), ("lit", 1))
         st["steps"].append(P.Step("derive", "derive {%s = %s}" % (nm, P.prql_expr(e)), "TDerive [(Some %d%%N, %s)]" % (P.nid(nm), P.coq_expr(e))))
         st["cols"] = st["cols"] + [(None, nm)]
         f = ("bin", "Or", ("bin", "Gt", ("col", "u", n_), ("lit", 0)), ("isnull", ("col", "u", n_), False))
         if r.random() < 0.5:
             f = ("bin", "And", f, ("bin", "Or", ("bin", "Ne", ("col", None, nm), ("lit", 99)), ("isnull", ("col", None, nm), False)))
-        return P.Step("filter", "filter %s" % P.prql_expr(f), "TFilter %s" % P.coq_expr(f))
+        return P.Step("joinboth", "filter %s" % P.prql_expr(f), "TFilter %s" % P.coq_expr(f), shared=n_, both=both)
 
     def t_casealias(self, st):
         """an alias that differs from its source column only by case: PRQL names are case-sensitive, so this is a
@@ -223,10 +226,16 @@ def classify(rec):
     if ("joinpick" in kinds or "knownjoin" in kinds or "join" in kinds) and any(re.fullmatch(r"_expr_\d+", c) for c in cols) and re.search(r" AS \"?_expr_\d+\"?", sql) \
             and cols_n == frame_n:
         return "F34-renamed-duplicate-name-leaks"     # a NAME is wrong; a missing column is F13's class (below)
+    if rec["verdict"] == "rows" and "joinboth" in kinds and re.search(r"SELECT \w+\.\*, \w+\.\*", sql):
+        jb = [st for st in rec["program"].steps if st.kind == "joinboth"][-1]
+        rn = rec["program"].meta.get("rename") or {}
+        nm_ = rn.get(jb.info["shared"], jb.info["shared"])
+        if not jb.info.get("both") and re.search(r"FROM table_\d+ WHERE [^()]*(?<![.\w\"])\"?%s\"? " % re.escape(nm_), sql + " "):
+            return "F48-right-column-read-as-left-behind-star"
     if rec["verdict"] == "panic" and kinds and kinds[-1] == "unnamedjoin":
         pn = (rec.get("compile") or {}).get("panic", {})
         if "called `Option::unwrap()` on a `None` value" in pn.get("msg", "") and "sql/gen_expr.rs" in pn.get("loc", ""):
-            return "F45-unnamed-operand-column-panic"
+            return "F47-unnamed-operand-column-panic"
     if rec["verdict"] in ("names", "rows") and cols_n < frame_n:
         last_select = sql[sql.rfind("SELECT "):]
         sel_list = last_select[:last_select.find(" FROM ")] if " FROM " in last_select else last_select
@@ -299,6 +308,8 @@ def judge_cols(rec):
         if v == "rows" and any(s.kind in ("joinpick", "knownjoin") for s in rec["program"].steps) \
                 and not R.rows_equal(rec["sqlite_rows"], rec["model_rows"], ordered=False):
             return "same-named columns of both join sides are selected and the VALUES differ from the frame's (columns merged or swapped?)"
+        if v == "rows" and any(s.kind == "joinboth" for s in rec["program"].steps) and not R.rows_equal(rec["sqlite_rows"], rec["model_rows"], ordered=False):
+            return "a filter on the RIGHT table's column of a name both tables have selects other rows than the frame's column does (the reference reached the wrong column)"
         return None                # same columns: any other value difference is C01's clause
     if v == "sql-err":
         return "emitted SQL does not execute: %s" % str(rec.get("sqlite"))[:200]
